@@ -15,6 +15,17 @@ type crashSpace struct {
 	Depth     int
 }
 
+// c03BigLetters: records of two sizes, one of them larger than a whole segment, next to overwrites and
+// deletes of the same key - the replay order of segments must follow the write order whatever segment a
+// record of an unusual size is placed in (seed C16-s1).
+func c03BigLetters() []explore.Op {
+	return []explore.Op{
+		{Kind: explore.PutBig, Key: "a"}, {Kind: explore.Put, Key: "a"}, {Kind: explore.Put, Key: "b"},
+		{Kind: explore.Delete, Key: "a"}, {Kind: explore.Compact}, {Kind: explore.Reopen},
+	}
+}
+
+
 func c03Letters() []explore.Op {
 	return []explore.Op{
 		{Kind: explore.Put, Key: "a"}, {Kind: explore.Put, Key: "b"}, {Kind: explore.Put, Key: "c"},
@@ -78,15 +89,22 @@ func (m recMemo) get(img *simfs.FS, base *explore.Base, o explore.RecoverOpts) (
 }
 
 func runC03(c *explore.Ctx) {
-	var spaces []crashSpace
+	var spaces, bigSpaces []crashSpace
 	if c.Thorough() {
 		spaces = []crashSpace{{"E", "ROLL", 7}, {"E", "ROLL1", 6}, {"E", "BIGC", 6}, {"S2", "ROLL", 6}, {"S2", "ROLL1", 6}, {"CH", "ROLL", 5}, {"T", "BIGC", 6}, {"T3", "BIGC", 6}, {"S3", "ROLL", 5}, {"S4", "ROLL", 5}, {"SM", "ROLLM", 6}, {"RU", "ROLL", 6}, {"T!hdr3", "BIGC", 5}, {"S2!unclean", "ROLL", 5}, {"LG15", "ROLL1", 5}}
+		bigSpaces = []crashSpace{{"E", "ROLL", 6}, {"S2", "ROLL", 5}, {"E", "BIGC", 5}}
 	} else {
 		spaces = []crashSpace{{"E", "ROLL", 3}, {"E", "ROLL1", 3}, {"S2", "ROLL", 3}, {"S2", "ROLL1", 3}, {"CH", "ROLL", 2}, {"T", "BIGC", 3}, {"T3", "BIGC", 2}, {"SM", "ROLLM", 3}, {"RU", "ROLL", 3},
 			// the session starts with a recovery: 3 bytes of a torn size header at the end of the newest segment
 			{"T!hdr3", "BIGC", 2}, {"LG15", "ROLL1", 2}}
+		// records larger than a whole segment between ordinary ones
+		bigSpaces = []crashSpace{{"E", "ROLL", 4}, {"S2", "ROLL", 3}}
 	}
-	for _, sp := range spaces {
+	for si, sp := range append(spaces, bigSpaces...) {
+		letters := c03Letters()
+		if si >= len(spaces) {
+			letters = c03BigLetters()
+		}
 		if c.Expired() || c.NViolations() > 0 {
 			return
 		}
@@ -103,7 +121,7 @@ func runC03(c *explore.Ctx) {
 				c.Violation(*v)
 			}
 		}
-		enumWords(c, c03Letters(), sp.Depth, func(word []explore.Op, checkFrom int) bool {
+		enumWords(c, letters, sp.Depth, func(word []explore.Op, checkFrom int) bool {
 			if c.Expired() {
 				return false
 			}
